@@ -106,6 +106,8 @@ pub struct World {
     pub idents: Vec<Ident>,
     pub recs: Vec<Rec>,
     pub ev_idx: usize,
+    /// running hash of every output the real code produced (C18 compares it across executions)
+    pub tx: crate::util::Fnv,
 }
 
 pub type V = Result<(), Violation>;
@@ -152,11 +154,28 @@ fn out_class<T>(r: &Result<T, Fail>) -> String {
 
 impl World {
     pub fn new(p: P) -> World {
-        World { p, keys: vec![], scs: vec![], rcs: vec![], idents: vec![], recs: vec![], ev_idx: 0 }
+        World { p, keys: vec![], scs: vec![], rcs: vec![], idents: vec![], recs: vec![], ev_idx: 0, tx: crate::util::Fnv::new() }
     }
 
     pub fn viol(&self, inv: &str, expected: String, observed: String) -> Violation {
         Violation { property: self.p.name().to_string(), invariant: inv.to_string(), at_event: self.ev_idx, expected, observed }
+    }
+    pub fn t(&mut self, b: &[u8]) {
+        self.tx.put_u64(b.len() as u64);
+        self.tx.put(b);
+    }
+    pub fn t_res(&mut self, r: &Result<Vec<u8>, Fail>) {
+        match r {
+            Ok(v) => {
+                self.tx.put(b"ok");
+                self.t(v)
+            }
+            Err(f) => {
+                let s = short(f);
+                self.tx.put(b"err");
+                self.t(s.as_bytes())
+            }
+        }
     }
     fn is(&self, ps: &[P]) -> bool {
         ps.contains(&self.p)
@@ -181,6 +200,8 @@ impl World {
         cov.ops += 1;
         match r {
             Ok((sk, pk)) => {
+                self.t(&sk);
+                self.t(&pk);
                 if self.is(&[P::C02, P::C03]) {
                     self.check_derive(kem, ikm, &sk, &pk, cov)?;
                 }
@@ -212,6 +233,8 @@ impl World {
         cov.ops += 1;
         match r {
             Ok((sk, pk)) => {
+                self.t(&sk);
+                self.t(&pk);
                 *slot(&mut self.keys, k) = Some(Key { kem, sk, pk });
                 Ok(())
             }
@@ -313,6 +336,13 @@ impl World {
         cov.ops += 1;
         let log = shim::take_log();
         cov.hit(&format!("setup_s.{:?}.{:?}.{}", kem, cfg.mode, out_class(&real)));
+        {
+            let r2: Result<Vec<u8>, Fail> = match &real {
+                Ok((e, _)) => Ok(e.clone()),
+                Err(f) => Err(f.clone()),
+            };
+            self.t_res(&r2);
+        }
         cov.sig_event("SetupS", &format!("{:?}{:?}{:?}{}", kem, cfg.suite.aead, cfg.mode, out_class(&real)));
         // outcome law
         match &real {
@@ -463,6 +493,13 @@ impl World {
         cov.ops += 1;
         let _ = shim::take_log();
         cov.hit(&format!("setup_r.{:?}.{:?}.{}", kem, cfg.mode, out_class(&real)));
+        {
+            let r2: Result<Vec<u8>, Fail> = match &real {
+                Ok(_) => Ok(vec![]),
+                Err(f) => Err(f.clone()),
+            };
+            self.t_res(&r2);
+        }
         cov.sig_event("SetupR", &format!("{:?}{:?}{:?}{}", kem, cfg.suite.aead, cfg.mode, out_class(&real)));
         match &real {
             Err(Fail::Panic(m)) => return Err(self.viol("setup_r.no-panic", "Ok or Err(DecapError)".into(), format!("panic: {}", m))),
